@@ -15,6 +15,11 @@
 //	        (failure before commit, failure after commit, foreign errors, short result
 //	        vectors, item-local errors, lookup errors and spurious misses); replayed exactly
 //	        by the model
+//	gated   one goroutine pipelines sub-batches into channels of ONE shard with a tiny
+//	        WriterIdleRetention while the fake node holds an append of one channel in
+//	        flight (gate), creates a writer for another channel (reclaim sweep) and sends
+//	        again to the held channel: same history monitor
+//	idle    channelWriter.idleExpired on scripted writer states (export)
 //	conc    concurrent Router.SendBatch calls over channelappend.Group (same ports, random
 //	        latencies and faults, small backlogs, optional Stop); history acceptance:
 //	        results + the records handed to the port are checked by the property monitor
@@ -89,6 +94,10 @@ type input struct {
 	Pool       int      `json:"pool,omitempty"`
 	Admission  int      `json:"admission,omitempty"`
 	Coalesce   bool     `json:"coalesce,omitempty"`
+	// conc / gated: Options.WriterIdleRetention in milliseconds (0 = default, 10 minutes)
+	RetentionMS int `json:"retention_ms,omitempty"`
+	// idle
+	Rows []idleRow `json:"rows,omitempty"`
 }
 
 var (
@@ -117,14 +126,18 @@ func genItem(r *rand.Rand, chs int, keyless float64) item {
 
 func gen(r *rand.Rand, tier string, i int) input {
 	switch x := r.IntN(20); {
-	case x < 6:
+	case x < 5:
 		return genCoal(r, tier)
-	case x < 10:
+	case x < 8:
 		return genWriter(r, tier)
-	case x < 15:
+	case x < 9:
+		return genIdle(r, tier)
+	case x < 14:
 		return genEffect(r, tier)
-	default:
+	case x < 18:
 		return genConc(r, tier)
+	default:
+		return genGated(r, tier)
 	}
 }
 
@@ -138,6 +151,10 @@ func run(in input) vh.Result {
 		return runEffect(in)
 	case "conc":
 		return runConc(in)
+	case "gated":
+		return runGated(in)
+	case "idle":
+		return runIdle(in)
 	}
 	return vh.Result{Coq: "(C29Writer 0%Z 0%Z [] [])", Class: "unknown-kind", Trivial: true}
 }
